@@ -166,9 +166,66 @@ var pkgCache = map[string]*pkgSyntax{}
 
 type stubImporter struct{ pkgs map[string]*types.Package }
 
+// fakeSrc gives the type checker just enough of two standard packages to see the channels
+// they hand out (a timer's or ticker's C, time.After/Tick, Context.Done), so that a range
+// over one of them is recognised as a range over a channel.
+var fakeSrc = map[string]string{
+	"time": `package time
+type Duration int64
+type Time struct{}
+type Timer struct{ C <-chan Time }
+func (*Timer) Stop() bool
+func (*Timer) Reset(Duration) bool
+type Ticker struct{ C <-chan Time }
+func (*Ticker) Stop()
+func (*Ticker) Reset(Duration)
+func NewTimer(Duration) *Timer
+func NewTicker(Duration) *Ticker
+func AfterFunc(Duration, func()) *Timer
+func After(Duration) <-chan Time
+func Tick(Duration) <-chan Time
+func Now() Time
+func Since(Time) Duration
+func Sleep(Duration)
+const (
+	Nanosecond Duration = 1
+	Microsecond = 1000 * Nanosecond
+	Millisecond = 1000 * Microsecond
+	Second = 1000 * Millisecond
+	Minute = 60 * Second
+	Hour = 60 * Minute
+)
+`,
+	"context": `package context
+type Context interface {
+	Done() <-chan struct{}
+	Err() error
+	Value(key any) any
+}
+type CancelFunc func()
+type CancelCauseFunc func(error)
+func Background() Context
+func TODO() Context
+func WithCancel(Context) (Context, CancelFunc)
+func WithCancelCause(Context) (Context, CancelCauseFunc)
+func WithoutCancel(Context) Context
+func WithValue(Context, any, any) Context
+`,
+}
+
 func (si stubImporter) Import(path string) (*types.Package, error) {
 	if p := si.pkgs[path]; p != nil {
 		return p, nil
+	}
+	if src, ok := fakeSrc[path]; ok {
+		fset := token.NewFileSet()
+		if f, err := parser.ParseFile(fset, path+".go", src, 0); err == nil {
+			cfg := types.Config{Importer: si, Error: func(error) {}}
+			if p, _ := cfg.Check(path, fset, []*ast.File{f}, nil); p != nil {
+				si.pkgs[path] = p
+				return p, nil
+			}
+		}
 	}
 	name := path
 	if i := strings.LastIndex(path, "/"); i >= 0 {
